@@ -154,6 +154,8 @@ def core_lines(tier):
     out.append(line("bufF", "buf0", iat=ND_IAT, pd=ND_PD, until=7.3))
     out.append(line("buf0", "buf0", iat=ND_IAT, pd=ND_PD, until=7.3, mb=False, sb=False))
     out.append(line("bufF", "buf0", until=0.7))
+    out.append(line("bufF", "buf0", iat=[0, 1], n=4))
+    out.append(line("buf0", "bufF", iat=[0, 2], pd=[1, 2], n=3, cap1=2))
     return out
 
 
@@ -229,6 +231,44 @@ def comb_split_slow(recipe=(1, 2), out_pol="ROUND_ROBIN", sblocking=False, block
     return c
 
 
+def pallet_split(in_pol="FIRST_AVAILABLE", n_in=1, n_out=1, sblocking=True, out_pol="FIRST_AVAILABLE", slow=True, until=16, n=3, order="nodes_first",
+                 iat=None):
+    """pallet sources feed a splitter directly (empty pallets), optionally slow consumers behind it"""
+    nodes = [src("SP%d" % i, n=n, flow="pallet", iat=iat or ([1, 0.5] if i == 0 else [1, 2])) for i in range(n_in)]
+    edges = [buf("P%d" % i, "SP%d" % i, "X", cap=2) for i in range(n_in)]
+    nodes.append({"t": "splitter", "id": "X", "pd": ("call", [1, 0.5]), "blocking": sblocking, "in_pol": in_pol, "out_pol": out_pol})
+    for j in range(n_out):
+        if slow:
+            nodes += [mach("D%d" % j, pd=[3, 2]), sink("K%d" % j)]
+            edges += [buf("O%d" % j, "X", "D%d" % j, cap=1), buf("Z%d" % j, "D%d" % j, "K%d" % j, cap=1)]
+        else:
+            nodes.append(sink("K%d" % j))
+            edges.append(buf("O%d" % j, "X", "K%d" % j, cap=1))
+    return {"nodes": nodes, "edges": edges, "until": until, "order": order, "family": "pallet_split",
+            "tag": "pallet_split(%s,in%d,out%d,sb%d,%s,slow%d,%s)" % (_p(in_pol), n_in, n_out, sblocking, _p(out_pol), slow, order)}
+
+
+def splitters(tier):
+    out = []
+    for in_pol in ("FIRST_AVAILABLE", "ROUND_ROBIN", 0, ("call",)):
+        out.append(pallet_split(in_pol=in_pol))
+        out.append(pallet_split(in_pol=in_pol, sblocking=False))
+    for in_pol in ("ROUND_ROBIN", "RANDOM", "FIRST_AVAILABLE", 1, ("gen",)):
+        out.append(pallet_split(in_pol=in_pol, n_in=3, n_out=1, slow=False))
+        out.append(pallet_split(in_pol=in_pol, n_in=2, n_out=3, slow=False, out_pol="ROUND_ROBIN"))
+    out.append(pallet_split(in_pol="ROUND_ROBIN", n_in=2, n_out=2, out_pol="FIRST_AVAILABLE", order="reversed"))
+    out.append(pallet_split(iat=[0, 1], slow=True))
+    # splitter fed by a combiner, non-default in-edge policy on the splitter
+    for pol in ("ROUND_ROBIN", 0):
+        c = comb_split_slow((1, 2), out_pol="FIRST_AVAILABLE", sblocking=True)
+        for nd in c["nodes"]:
+            if nd["t"] == "splitter":
+                nd["in_pol"] = pol
+        c["tag"] += "+in_%s" % _p(pol)
+        out.append(c)
+    return out
+
+
 def combiners(tier):
     out = []
     for recipe in ((1, 1), (1, 2), (1, 1, 1), (1, 0)):
@@ -266,7 +306,7 @@ def conveyor_lines(tier):
     return out
 
 
-FAMILIES = {"lines": core_lines, "congestion": congestion, "diamonds": diamonds, "fans": fans, "combiners": combiners,
+FAMILIES = {"splitters": splitters, "lines": core_lines, "congestion": congestion, "diamonds": diamonds, "fans": fans, "combiners": combiners,
             "conveyors": conveyor_lines}
 
 
